@@ -266,6 +266,36 @@ def gen_eng(rng, idx):
     return {"kind": "eng_" + flushed, "line": line, "show": show}
 
 
+def gen_eng_large(rng, npairs):
+    """many sequences in one answer (the result stream is cut into batches: sizes around multiples of the batch size):
+    npairs link values, one a-event and one b-event each (a tenth of the b-events precede their a-event and match only
+    with PRECEDED BY), no WHERE, no LIMIT"""
+    fa, fb = ["x"], ["y"]
+    ev = {TA: [], TB: []}
+    for j in range(npairs):
+        ta = rng.range(1, 9)
+        tb = ta + rng.range(0, 3) if not rng.chance(1, 10) else ta - 1
+        ev[TA].append({"k": str(j + 1), "t": ta, "f": {"x": str(j % 3)}})
+        ev[TB].append({"k": str(j + 1), "t": tb, "f": {"y": str(j % 2)}})
+    lk = rng.choice(["FB", "FB", "PB"])
+    order = [(0, i) for i in range(npairs)] + [(1, i) for i in range(npairs)]
+    for i in range(len(order) - 1, 0, -1):
+        j = rng.below(i + 1)
+        order[i], order[j] = order[j], order[i]
+    ops = [f"S{t}{i}" for t, i in order]
+    flushed = rng.choice(["mem", "flush_all", "mixed"])
+    if flushed == "flush_all":
+        ops.append("F")
+    elif flushed == "mixed":
+        ops.insert(rng.range(1, len(ops)), "F")
+    shards = rng.choice([1, 3])
+    line = (f"seq_eng {lk} - {rpn(None)} {hx(TA)} {hx(TB)} {hx('x')} {hx('y')} "
+            f"{zones_tok([('LT', ev[TA])], fa)} {zones_tok([('LT', ev[TB])], fb)} {shards}i:{','.join(ops)}")
+    show = (f"[{shards} shard(s), {flushed}, k int] QUERY {TA} {'FOLLOWED' if lk == 'FB' else 'PRECEDED'} BY {TB} LINKED BY k USING TIME t"
+            f" | {npairs} link values, one {TA} and one {TB} event each")
+    return {"kind": "eng_large_" + flushed, "line": line, "show": show}
+
+
 def cases(rng, tier):
     quick = tier == "quick"
     out = []
@@ -275,6 +305,8 @@ def cases(rng, tier):
         out.append(gen_fn(rng, True))
     for i in range(300 if quick else 5000):
         out.append(gen_eng(rng, i))
+    for n in ([rng.choice([513, 600]), rng.choice([512, 1025])] if quick else [511, 512, 513, 514, 600, 1023, 1024, 1025, 1026, 1537, 2049] + [rng.range(500, 2100) for _ in range(6)]):
+        out.append(gen_eng_large(rng, n))
     return out
 
 
